@@ -120,8 +120,8 @@ func c16Accounting(r *core.Report) {
 			return true
 		})
 		ast.Inspect(root.Body, func(n ast.Node) bool {
-			if as, ok := n.(*ast.AssignStmt); ok && as.Tok == token.ADD_ASSIGN && len(as.Lhs) == 1 {
-				if o := core.ObjOf(info, as.Lhs[0]); o != nil && cands[o] {
+			if place, _, isAdd := addStep(info, n); isAdd {
+				if o := core.ObjOf(info, place); o != nil && cands[o] {
 					sizeObj = o
 				}
 			}
@@ -182,10 +182,11 @@ func c16Accounting(r *core.Report) {
 					if !ok || len(as.Lhs) != 1 || core.ObjOf(info, as.Lhs[0]) != sizeObj {
 						continue
 					}
-					switch as.Tok {
-					case token.ADD_ASSIGN:
+					_, addend, isAdd := addStep(info, as)
+					switch {
+					case isAdd && addend != nil:
 						okLen := false
-						ast.Inspect(as.Rhs[0], func(x ast.Node) bool {
+						ast.Inspect(addend, func(x ast.Node) bool {
 							if lc, ok := x.(*ast.CallExpr); ok && core.BuiltinName(info, lc) == "len" && len(lc.Args) == 1 && len(c.Args) > 0 && core.ObjOf(info, lc.Args[0]) != nil && core.ObjOf(info, lc.Args[0]) == core.ObjOf(info, c.Args[0]) {
 								okLen = true
 							}
@@ -194,7 +195,7 @@ func c16Accounting(r *core.Report) {
 						if okLen {
 							adv[m] = true
 						}
-					case token.ASSIGN:
+					case as.Tok == token.ASSIGN:
 						if short == "WriteHeader" {
 							adv[m] = true
 						}
@@ -590,7 +591,7 @@ func c16PrefixSums(r *core.Report) {
 					store = g.NodeOf(as.Pos())
 				}
 			}
-			if as.Tok == token.ADD_ASSIGN && core.ObjOf(info, as.Rhs[0]) == val {
+			if _, addend, isAdd := addStep(info, as); isAdd && addend != nil && core.ObjOf(info, addend) == val {
 				if total == nil || core.ObjOf(info, as.Lhs[0]) == total {
 					add = g.NodeOf(as.Pos())
 					if total == nil {
